@@ -37,7 +37,7 @@ use std::sync::Arc;
 pub const META: PropertyMeta = PropertyMeta {
     id: "C19",
     level: "exploration",
-    rule: "upgrade: a file-system data dir with 1..3 accounts, each built by a proptest-generated content history (1..12 account-level ops of the C01 set on a cipher x KDF cell: secrets of all kinds, folders with flags, names, descriptions; optionally 1..2 rewrites (compaction, folder / account password change, cipher+KDF change); optionally a folder that is created, filled and deleted; optionally one external file secret carrying 0..2 further external files as custom-field attachments (several blobs in one secret directory); 0..3 account preferences, 0..2 global preferences, 0..3 server origins, 0..2 extra trusted devices of which some are revoked again). Every account is signed out, upgrade_accounts runs as a dry run (every source file must stay byte-identical and present, no database file may appear, the reported account list is the created one) and then for real (keep_stale_files and backup_directory drawn per case). Every account is then opened on the sqlite backend with the same password and compared with what was recorded before the upgrade: sync_status log by log (last commit, root, length for identity, account, device, files and every folder; folder set), every log record by record (time, commit hash, event bytes), the C01 read oracle against the history's model (folders, names, flags, descriptions, every decrypted secret, deleted ids absent), the C02 oracle (replay == memory == stored rows == model), trusted devices, account and global preferences, server origins, attachment plaintext through download_file, account list and labels. upgrade-server: the same generated client accounts are turned into server-side fs accounts with ServerStorage::create_account(CreateSet) under Paths::new_server (attachment ciphertext copied into the server's files dir), then dry run + upgrade + per account: sync_status, log records, device keys, folder summaries, the replay of every server folder log decrypted with the client's folder key equal to the model, name / flags / description and secret-id set of the stored (header-only) server vaults, blob files byte-identical. differential: one generated history (1..25 ops of the C01 read mix incl. folder-level ops with caller-chosen ids, sign-out/in and fresh instances) executed step by step on a fresh fs account and a fresh sqlite account with the same cipher and KDF; after every step both pass the C01 read oracle and their models agree slot by slot (folders by creation order, secrets by creation order); at the end the two accounts are read directly and compared slot by slot (folder name, flags, description, projected meta and secret of every live secret) and the lengths of the identity, account, device, files and per-folder event logs are equal. upgrade-sync: an fs device (cipher x KDF cell) makes 0..6 generated sync-level edits and syncs with an in-process server (fs or sqlite), then makes 0..4 more edits without syncing; the device is signed out, upgraded, reopened on sqlite and put behind the same server: its sync status must be unchanged by the upgrade, its first execute_sync must succeed without entering conflict resolution (no scan request on the wire), and after syncing its status equals the server's; non-trivial = synced and unsynced edits both present. Non-trivial (upgrade, upgrade-server) = at least 2 accounts in the dir and one of them deleted a folder; non-trivial (differential) = the history deleted or moved a secret and later reopened. Distinct = distinct case.",
+    rule: "upgrade: a file-system data dir with 1..3 accounts, each built by a proptest-generated content history (1..12 account-level ops of the C01 set on a cipher x KDF cell: secrets of all kinds, folders with flags, names, descriptions; optionally 1..2 rewrites (compaction, folder / account password change, cipher+KDF change); optionally a folder that is created, filled and deleted; optionally one external file secret carrying 0..2 further external files as custom-field attachments (several blobs in one secret directory); 0..3 account preferences, 0..2 global preferences, 0..3 server origins (two of them sharing their display name in about half of the cases with two or more), 0..2 extra trusted devices of which some are revoked again). Every account is signed out, upgrade_accounts runs as a dry run (every source file must stay byte-identical and present, no database file may appear, the reported account list is the created one) and then for real (keep_stale_files and backup_directory drawn per case). Every account is then opened on the sqlite backend with the same password and compared with what was recorded before the upgrade: sync_status log by log (last commit, root, length for identity, account, device, files and every folder; folder set), every log record by record (time, commit hash, event bytes), the C01 read oracle against the history's model (folders, names, flags, descriptions, every decrypted secret, deleted ids absent), the C02 oracle (replay == memory == stored rows == model), trusted devices, account and global preferences, server origins, attachment plaintext through download_file, account list and labels. upgrade-server: the same generated client accounts are turned into server-side fs accounts with ServerStorage::create_account(CreateSet) under Paths::new_server (attachment ciphertext copied into the server's files dir), then dry run + upgrade + per account: sync_status, log records, device keys, folder summaries, the replay of every server folder log decrypted with the client's folder key equal to the model, name / flags / description and secret-id set of the stored (header-only) server vaults, blob files byte-identical. differential: one generated history (1..25 ops of the C01 read mix incl. folder-level ops with caller-chosen ids, sign-out/in and fresh instances) executed step by step on a fresh fs account and a fresh sqlite account with the same cipher and KDF; after every step both pass the C01 read oracle and their models agree slot by slot (folders by creation order, secrets by creation order); at the end the two accounts are read directly and compared slot by slot (folder name, flags, description, projected meta and secret of every live secret) and the lengths of the identity, account, device, files and per-folder event logs are equal. upgrade-sync: an fs device (cipher x KDF cell) makes 0..6 generated sync-level edits and syncs with an in-process server (fs or sqlite), then makes 0..4 more edits without syncing; the device is signed out, upgraded, reopened on sqlite and put behind the same server: its sync status must be unchanged by the upgrade, its first execute_sync must succeed without entering conflict resolution (no scan request on the wire), and after syncing its status equals the server's; non-trivial = synced and unsynced edits both present. Non-trivial (upgrade, upgrade-server) = at least 2 accounts in the dir and one of them deleted a folder; non-trivial (differential) = the history deleted or moved a secret and later reopened. Distinct = distinct case.",
     assumptions: &[
         "the post-upgrade sync against a server holding the pre-upgrade state needs engine B and is not covered here (hook: run_sync_part)",
         "audit trail and system messages are imported by the upgrader but are not named by the property and are not compared",
@@ -171,8 +171,13 @@ fn plan_strategy(max_ops: usize, attach_weight: u32) -> impl Strategy<Value = Ac
             attach_weight => (any::<u16>(), 0u16..3000, any::<u8>(), prop_oneof![2 => Just(0u8), 2 => Just(1u8), 1 => Just(2u8)]).prop_map(|(folder, size, seed, extra)| Some(AttachSpec { folder, size, seed, extra })),
         ],
     )
-        .prop_map(|(mut history, rewrites, deleted_folder, prefs, servers, devices, attachment)| {
+        .prop_map(|(mut history, rewrites, deleted_folder, prefs, mut servers, devices, attachment)| {
             history.cfg.db = false;
+            // a server's name is a free display label: give two different servers the same one
+            // in about half of the cases that have two or more
+            if servers.len() >= 2 && servers[1].host.len() % 2 == 0 && servers[0].host != servers[1].host {
+                servers[1].name = servers[0].name.clone();
+            }
             AccountPlan { history, rewrites, deleted_folder, prefs, servers, devices, attachment }
         })
 }
